@@ -17,6 +17,9 @@ _JOB_KINDS = {}
 def preimport(repo):
     """Import the repository under test (and its heavy dependencies) once."""
     global REPO_FILE, REPO_PKG_DIR
+    from sim import clock
+
+    clock.install()  # before the repository is imported (see sim/clock.py)
     import pdb2pqr  # noqa: F401
 
     REPO_FILE = os.path.realpath(pdb2pqr.__file__)
